@@ -11,7 +11,7 @@ HM = "std::collections::HashMap::"
 
 def _hits(P, b, prov, field):
     for t in prov:
-        for g in P.global_cell(b, t):
+        for g in P.global_cell(b, t, through_helpers="add"):
             if field in g[3]:
                 return True
     return False
@@ -30,19 +30,31 @@ def _subject_bodies(P):
     return out
 
 
+def source_closure_of(P, method_nid):
+    """the closure a method hands to Observable::create (looked up in the method's inlined view)"""
+    mb = P.body(method_nid)
+    if mb is None:
+        return None
+    for c in mb.calls:
+        if atom(c) == "create":
+            cl = c.arg_closure(0)
+            if cl in P.bodies:
+                return P.bodies[cl]
+    return None
+
+
 def j_rules(P, E):
     r = RuleResult("J", "Subject observer-map discipline (J1-J6)")
-    src = None
-    for b in P.descendants(P.body(SUBJ + "::observable")) if P.body(SUBJ + "::observable") else []:
-        if "SOURCE" in E.role_of(b.id):
-            src = b
+    src = source_closure_of(P, SUBJ + "::observable")
     if src is None:
         r.error("anchor missing: Subject::observable source closure")
         return r
     teardown = None
-    for b in P.descendants(src):
-        if "TEARDOWN" in E.role_of(b.id):
-            teardown = b
+    for c in src.calls:          # (helpers are inlined into src)
+        if atom(c) == "set_on_unsubscribe":
+            cl = c.arg_closure(1)
+            if cl in P.bodies:
+                teardown = P.bodies[cl]
     if teardown is None:
         r.error("anchor missing: Subject::observable teardown closure")
         return r
@@ -211,7 +223,13 @@ def j_rules(P, E):
     # ReplaySubject::next appends under the write guard of `items` before it broadcasts)
     ro_ = P.body("subjects::replay_subject::ReplaySubject::observable")
     if ro_ is not None:
-        act = [b for b in P.descendants(ro_) if "ACTION" in E.role_of(b.id)]
+        rsrc = source_closure_of(P, "subjects::replay_subject::ReplaySubject::observable")
+        act = []
+        for c in (rsrc.calls if rsrc is not None else []):
+            if atom(c) == "ready_set_go":
+                cl = c.arg_closure(0)
+                if cl in P.bodies:
+                    act.append(P.bodies[cl])
         if not act:
             r.error("J7: replay action closure not found")
         for b in act:
@@ -236,7 +254,8 @@ def j_rules(P, E):
     # ReplaySubject::observable uses ready_set_go with the live subject
     ro = P.body("subjects::replay_subject::ReplaySubject::observable")
     if ro is not None:
-        uses = [c for b in [ro] + P.descendants(ro) for c in b.calls if atom(c) == "ready_set_go"]
+        rsrc2 = source_closure_of(P, "subjects::replay_subject::ReplaySubject::observable")
+        uses = [c for b in [ro] + ([rsrc2] if rsrc2 is not None else []) for c in b.calls if atom(c) == "ready_set_go"]
         r.instance(("J6", ro.nid), True, "ready_set_go uses %d" % len(uses))
         if not uses:
             r.violate(("J6", ro.nid, "replay without ready_set_go"), "ReplaySubject::observable no longer subscribes-live-then-replays via ready_set_go", body=ro)
@@ -553,8 +572,11 @@ def a19b(P, E):
                     o1 = interp.run(cb, (True,), {1: ()})
                 except Unsupported:
                     continue
-                tas = (all(o.ret == 1 and o.state == (True,) for o in o0) and o0 and
-                       all(o.ret == 0 and o.state == (True,) for o in o1) and o1)
+                # (conditional) test-and-set: from a clear flag every `true` result has set the flag and every
+                # `false` result has left it clear; from a set flag the result is always `false`
+                tas = (o0 and o1 and any(o.ret == 1 for o in o0)
+                       and all((o.ret == 1 and o.state == (True,)) or (o.ret == 0 and o.state == (False,)) for o in o0)
+                       and all(o.ret == 0 and o.state == (True,) for o in o1))
                 acqs, _, _ = cb.guards()
                 fa = {bb: a for bb, a in acqs.items() if any(rk == "param" and rd == 1 and path[:1] == (f,) for (rk, rd, path) in a["cell"])}
                 if tas and len(fa) == 1 and list(fa.values())[0]["mode"] in ("W", "M") and len(acqs) == 1:
